@@ -104,6 +104,11 @@ def configs(tier):
         for st in (gc_structs if tier == "thorough" else gc_structs[:2]):
             for mode in ("noise", "planted"):
                 c.append({"gene": "GC", "genome": genome, "cn": st, "mode": mode})
+        # GD: variants on region boundaries, a deletion-insertion, structures breaking there
+        for st in ([["1", "1"], ["1", "5"], ["1", "6"], ["1", "7"]] if tier == "thorough"
+                   else [["1", "1"], ["1", "5"]]):
+            for mode in ("noise", "planted"):
+                c.append({"gene": "GD", "genome": genome, "cn": st, "mode": mode})
     for g, st in (("toy", ["1", "1"]), ("GA", ["1", "1"]), ("GB", ["1", "1"]),
                   ("toy", ["1", "4"])) + ((("GA", ["1", "5"]), ("toy", ["1", "1", "1"]))
                                           if tier == "thorough" else ()):
@@ -637,7 +642,11 @@ def replay(o):
             return True, f"estimate_major raised {type(e).__name__}: {e} on {o['alt_counts']}"
         fcounts = {Mutation(p, op): len(v) for p, d in covf._coverage.items()
                    for op, v in d.items()}
-        depth_of = lambda mm: covf.total(mm)  # noqa
+        # depth of a locus = all observations there that are not insertions (independent
+        # of Coverage.total)
+        depth_of = lambda mm: float(sum(  # noqa
+            n for q, n in fcounts.items()
+            if q.pos == (mm.pos if hasattr(mm, "pos") else mm) and not stagelib.is_ins(q)))
         probs = stagelib.judge_major(gene, list(o["cn"]), fcounts,
                                      depth_of, profile.major_novel, gap, sols)
         if probs:
